@@ -22,6 +22,18 @@ BUILT={
  "C09":("exploration","runtime monitor: statement-derived oracle (pointer-identity prefixes, TC rule, fit rule, first-dropped rule) over sizes including the exact packed length of every record prefix +-1",
         "Each (message,size) pair is judged by an oracle written from the property, using Pack only to measure lengths.",
         "uses the library's Pack to measure lengths of candidate prefixes"),
+ "C12":("fault_enumeration","runtime monitor: fault enumeration over simulated streams (every split point, EOF/error at every offset, oversize writes, scripted stale/foreign datagram replies) + concurrent unique-request workload against real loopback servers with scribbled recycled buffers, offline no-mixing/exactly-once check, race detector",
+        "Framing and ID handling are enumerated over deterministic in-memory transports; cross-talk is decided offline over the merged client/handler log of uniquely tagged requests; the poolPut hook scribbles every recycled UDP buffer so aliasing is seen deterministically.",
+        "in-memory transports model short reads, not kernel behaviour; 20 s watchdog decides 'hang'"),
+ "C13":("exploration","runtime monitor: steered schedules through build-tag hook gates (Shutdown raced against every hook point in both release orders), held handlers, context expiry, misuse/restart/failed-start scripts, transport pauses; offline checker over a logical-clock event log; goroutine/connection leak probes; race detector",
+        "Explores orderings at hook granularity (not instruction granularity) on 5 transports; each scenario's event log is judged offline against the statement; distinct observed event orders are counted in the evidence.",
+        "liveness restated as bounded progress (15 s for operations that take microseconds); hooks sit outside critical sections"),
+ "C14":("exploration","runtime monitor: per-packet exactly-one-outcome oracle with hook-signalled quiescence on simulated UDP/TCP servers; wire-label longest-suffix routing reference; porcupine linearizability check of concurrent Handle/HandleRemove/ServeDNS histories; race detector",
+        "Admission decided per packet against a reference policy; routing against an independent suffix reference; the mux table is the one shared object, checked for linearizability on recorded histories.",
+        "DS routing: any registered strict ancestor accepted (statement leaves it open)"),
+ "C15":("fault_enumeration","runtime monitor: the harness plays the primary over a simulated stream: all envelope compositions (n<=6) of AXFR/IXFR streams with an independently computed RFC 8945 MAC chain, faults injected at every envelope index and EOF at every octet; oracle over delivered envelopes, channel and connection close log",
+        "Every fault class of the statement is injected at every position of small transfers; good runs compare delivered with transmitted records byte-exact.",
+        "envelopes signed at the real clock with fudge 300 (far from the boundary)"),
  "C16":("exploration","runtime monitor: object-graph address-range walker (copy vs original, decoded vs input buffer), deep snapshots around read-only operations, Go race detector on concurrent read-only use",
         "Aliasing is decided from the actual addresses of every reachable slice/pointer/map, not from sampled writes; read-only operations are bracketed by deep snapshots; concurrent use runs under -race.",
         "reflect-based walker sees exported and unexported fields; strings exempt for Copy"),
